@@ -217,8 +217,13 @@ Definition do_put (cfg : config) (pol : policy) (s : store) (p : path) (ct : cty
       if exists_ && inm then (s, (S412, PNone)) else
       match put_prep b ct permission parent_permission t wwc (PRes ptag1 pwwc1 pitems1) with
       | PRaise => (s, (S500, PNone))
-      | PRes t2 _ None => (s, (S400, PNone))
-      | PRes t2 _ (Some objs) =>
+      | PRes t2 _ oitems =>
+        let tag2_truthy := match t2 with Some TNone | None => false | _ => true end in
+        (* the type of the new collection may only be known now: test the permission again *)
+        if wwc && negb (has (if tag2_truthy then lw else lW) pm) then (s, (S403NA, PNone)) else
+        match oitems with
+        | None => (s, (S400, PNone))
+        | Some objs =>
         if wwc then
           let tg := match t2 with Some x => x | None => TNone end in
           let newc := mkColl tg [] (items_of_objs objs) in
@@ -235,6 +240,7 @@ Definition do_put (cfg : config) (pol : policy) (s : store) (p : path) (ct : cty
             (set_coll s (parent p) c', (S201, PEtag (EtItem o)))
           | _ => (s, (S500, PNone))               (* `prepared_item, = prepared_items` fails *)
           end
+        end
       end
     | _ => (s, (S409, PNone))
     end
